@@ -555,3 +555,28 @@ Proof.
   - destruct Hin as [Hin|[_ Hin]]; [discriminate|]. match goal with X : is_risk a = false |- _ => rewrite X in Hin end. discriminate.
   - destruct Hin as [Hin|[Hin _]]; discriminate.
 Qed.
+
+(* ---------------------------------------------------------------- snapstate.resolveChannel *)
+
+Theorem snapstate_pinned : forall ik ig kt gt old new,
+  pinned_for ik ig kt gt <> [] -> new <> [] ->
+  match resolve_channel ik ig kt gt old new with
+  | Some r => (r = pinned_for ik ig kt gt \/ has_prefix (pinned_for ik ig kt gt ++ [slash]) r = true) /\
+              (forall rc, parse_verbatim [] r dash = Some rc -> c_track rc = pinned_for ik ig kt gt)
+  | None => True
+  end.
+Proof.
+  intros ik ig kt gt old new Hp Hn. unfold resolve_channel.
+  apply is_nil_b_false in Hn. rewrite Hn. pose proof Hp as Hp'. apply is_nil_b_false in Hp'. rewrite Hp'.
+  pose proof (pinned_cannot_switch (pinned_for ik ig kt gt) new Hp) as H.
+  destruct (resolve_pinned (pinned_for ik ig kt gt) new); [exact H|exact I|exact I].
+Qed.
+
+Theorem snapstate_no_request : forall ik ig kt gt old, resolve_channel ik ig kt gt old [] = Some old.
+Proof. reflexivity. Qed.
+
+Theorem snapstate_unpinned : forall ik ig kt gt old new, pinned_for ik ig kt gt = [] -> new <> [] ->
+  resolve_channel ik ig kt gt old new = resolve old new.
+Proof.
+  intros ik ig kt gt old new Hp Hn. unfold resolve_channel. apply is_nil_b_false in Hn. rewrite Hn, Hp. reflexivity.
+Qed.
